@@ -240,6 +240,7 @@ type runner struct {
 	drv    *lean.Driver
 	dir    string
 	nimpl  int
+	implOnly bool // after a divergence: the property monitors alone decide
 	stats  M
 	counts map[string]int
 }
@@ -260,17 +261,37 @@ func (r *runner) runScript(script [][][]*t_aio.Command, dialect string) (int, M)
 	for bi, txs := range script {
 		obs := im.batch(txs)
 		if monitors["C14"] && prevDump != nil && obs["err"] == false {
-			// a search that is the first command of its batch is checked against the property itself
-			if len(txs) > 0 && len(txs[0]) > 0 && (txs[0][0].Kind == t_aio.SearchPromises || txs[0][0].Kind == t_aio.SearchSchedules) {
-				if res, ok := obs["results"].([]any); ok && len(res) > 0 {
-					cj, _ := lean.NormalizeValue(canon.Cmd(txs[0][0])["c"])
-					rj, _ := lean.NormalizeValue(res[0].([]any)[0])
+			// every search that runs before the first write of its batch sees the database as it stood before the batch:
+			// it is checked against the property itself
+			isRead := func(k t_aio.StoreKind) bool {
+				switch k {
+				case t_aio.ReadPromise, t_aio.ReadPromises, t_aio.SearchPromises, t_aio.ReadSchedule, t_aio.ReadSchedules, t_aio.SearchSchedules,
+					t_aio.ReadTask, t_aio.ReadTasks, t_aio.ReadEnqueueableTasks, t_aio.ReadLock:
+					return true
+				}
+				return false
+			}
+			res, _ := obs["results"].([]any)
+			dirty := false
+			for ti := 0; ti < len(txs) && !dirty && ti < len(res); ti++ {
+				rs, _ := res[ti].([]any)
+				for ci := 0; ci < len(txs[ti]) && !dirty && ci < len(rs); ci++ {
+					cmd := txs[ti][ci]
+					if !isRead(cmd.Kind) {
+						dirty = true
+						break
+					}
+					if cmd.Kind != t_aio.SearchPromises && cmd.Kind != t_aio.SearchSchedules {
+						continue
+					}
+					cj, _ := lean.NormalizeValue(canon.Cmd(cmd)["c"])
+					rj, _ := lean.NormalizeValue(rs[ci])
 					got := []M{}
 					for _, x := range rj.(map[string]any)["rows"].([]any) {
 						got = append(got, x.(map[string]any))
 					}
 					oracle := monitor.SearchPromises
-					if txs[0][0].Kind == t_aio.SearchSchedules {
+					if cmd.Kind == t_aio.SearchSchedules {
 						oracle = monitor.SearchSchedules
 					}
 					if what := oracle(prevDump, cj.(map[string]any), got); what != "" {
@@ -283,11 +304,73 @@ func (r *runner) runScript(script [][][]*t_aio.Command, dialect string) (int, M)
 		if d, ok := obs["db"].(M); ok {
 			if nd, err := lean.NormalizeValue(d); err == nil {
 				cur := nd.(map[string]any)
+				if monitors["C09"] && prevDump != nil && obs["err"] == false {
+					// "heartbeating by the owning process extends the lease": in a committed batch whose only lock-writing commands
+					// are heartbeats, every lock of a heartbeating process expires at (time of its last heartbeat) + ttl afterwards
+					last := map[string]int64{}
+					only := true
+					for _, tx := range txs {
+						for _, c := range tx {
+							switch c.Kind {
+							case t_aio.HeartbeatLocks:
+								last[c.HeartbeatLocks.ProcessId] = c.HeartbeatLocks.Time
+							case t_aio.AcquireLock, t_aio.ReleaseLock, t_aio.TimeoutLocks:
+								only = false
+							}
+						}
+					}
+					if only && len(last) > 0 {
+						rowsOf := func(d map[string]any) map[string]map[string]any {
+							out := map[string]map[string]any{}
+							xs, _ := d["locks"].([]any)
+							for _, x := range xs {
+								if m, ok := x.(map[string]any); ok {
+									out[fmt.Sprint(m["resourceId"])] = m
+								}
+							}
+							return out
+						}
+						jn := func(v any) int64 {
+							switch x := v.(type) {
+							case json.Number:
+								n, _ := x.Int64()
+								return n
+							case float64:
+								return int64(x)
+							case int64:
+								return x
+							case int:
+								return int64(x)
+							}
+							return -1
+						}
+						pl, cl := rowsOf(prevDump), rowsOf(cur)
+						for rid, t := range pl {
+							tm, ok := last[fmt.Sprint(t["processId"])]
+							if !ok {
+								continue
+							}
+							u := cl[rid]
+							if u == nil || jn(u["expiresAt"]) != tm+jn(t["ttl"]) {
+								return bi, M{"what": "property monitor failed on the implementation", "property": "C09",
+									"diff": fmt.Sprintf("lock on %q held by process %v (ttl %d) was heartbeated at %d in this batch but expires at %v afterwards, not at %d", rid, t["processId"], jn(t["ttl"]), tm, func() any { if u == nil { return "<gone>" }; return u["expiresAt"] }(), tm+jn(t["ttl"])),
+									"property_violation": true}
+							}
+							r.counts["lock_heartbeats_checked"]++
+						}
+					}
+				}
 				if pid, what := monitor.Check(monitors, prevDump, cur); pid != "" {
 					return bi, M{"what": "property monitor failed on the implementation", "property": pid, "diff": what, "property_violation": true}
 				}
 				prevDump = cur
 			}
+		}
+		if r.implOnly {
+			if p, ok := obs["panic"]; ok {
+				return bi, M{"what": "implementation panicked", "detail": p, "property_violation": true}
+			}
+			continue
 		}
 		rep, _, err := r.drv.Call(batchJSON(txs, modelDialect))
 		if err != nil {
@@ -483,6 +566,7 @@ func main() {
 	out := flag.String("out", "", "summary JSON path")
 	dialect := flag.String("dialect", "sqlite", "which generated definitions the MODEL uses (pg: Postgres definitions against the real sqlite store, inside DialectSafe)")
 	mon := flag.String("monitor", "", "comma-separated property ids whose monitors run on the implementation dumps")
+	hunt := flag.Int("hunt", 300, "after a divergence that no monitor explains: this many further scripts against the implementation alone, monitors on")
 	flag.BoolVar(&pgshim, "pgshim", false, "run the real postgres.go worker over a $N->?N shim on sqlite (model: Postgres definitions)")
 	flag.Parse()
 	if pgshim {
@@ -580,6 +664,9 @@ func main() {
 	summary["corpus_scripts"] = ncorpus
 
 	g := gen.New(*seed)
+	var divergedScript [][][]*t_aio.Command
+	var divergedInfo M
+	divergedAt := ""
 	nb, ncmd := 0, 0
 	var samples []any
 	if *replay == "" && summary["disagreements"] == 0 {
@@ -610,9 +697,28 @@ func main() {
 				samples = scriptJSON(script[:2])
 			}
 			if i, info := r.runScript(script, "sqlite"); i >= 0 {
+				if info["property_violation"] != true && len(monitors) > 0 && !r.implOnly {
+					// model and implementation differ, no monitor has spoken: go on against the implementation alone and let
+					// the property monitors look for a failing input (this script first)
+					first, firstInfo := script, info
+					r.implOnly = true
+					if _, info2 := r.runScript(script, "sqlite"); info2 != nil && info2["property_violation"] == true {
+						info2["correspondence_divergence"] = firstInfo["what"]
+						fail(script, info2, fmt.Sprintf("seed=%d script=%d (implementation only)", *seed, s))
+						break
+					}
+					*nscripts = s + 1 + *hunt
+					divergedScript, divergedInfo, divergedAt = first, firstInfo, fmt.Sprintf("seed=%d script=%d", *seed, s)
+					continue
+				}
 				fail(script, info, fmt.Sprintf("seed=%d script=%d", *seed, s))
+				divergedScript = nil
 				break
 			}
+		}
+		if divergedScript != nil && summary["disagreements"] == 0 {
+			r.implOnly = false
+			fail(divergedScript, divergedInfo, divergedAt)
 		}
 	}
 	summary["scripts"] = *nscripts
